@@ -12,3 +12,8 @@ package v1
 //@   ensures ret.DryRun <==> (lib("strings.ToUpper", qparam(r, "preview")) == "YES" || lib("strings.ToUpper", qparam(r, "preview")) == "TRUE" || qparam(r, "preview") == "1")
 //@   ensures ret.IdempotencyKey == lib("(net/http.Header).Get", r.Header, "Idempotency-Key")
 //@   property C14 C07
+
+// C19: see v2.NewRouter
+//@ func v1.NewRouter
+//@   assumes !roMode
+//@   property C19
